@@ -124,6 +124,11 @@ def run(ctx):
     # 1. the implementation-level model itself (repaired removal): the statement's sentences 2 and 3,
     #    sentence 1 in its weak form
     ctx.tlc("Timers", "Timers_mc_quick.cfg" if quick else "Timers_mc_thorough.cfg", timeout=2400)
+    #    the steps NewTimer may consist of: deadline written before the timer is stored keeps sentence 3 ...
+    ctx.tlc("Timers", "Timers_mc_regorder.cfg", workers=4, timeout=2400)
+    #    ... the timer stored before its first deadline is written does not (candidate; it cannot be forced
+    #    without a gate inside NewTimer - the registration storm below is its binding)
+    reg_inv, reg_cex = counterexample(ctx, "Timers_cand_reg.cfg")
 
     # 2. candidates: sentence 2 on the by-id removal, sentence 1 as written
     scheds, origin = [], {}
@@ -206,10 +211,31 @@ def run(ctx):
     ctx.traces += len(fsegs)
     ctx.extra["free_runs"] = len(fsegs)
     ctx.extra["free_run_callbacks"] = ncb
-    ctx.extra["events_validated"] = len(events) + len(fevents)
+
+    # 6. registration storm: New() with 10-minute intervals (shared, reused and fresh ids, StopTimers in between) against a
+    #    loop that passes over the registry back to back (iterate() in a tight loop / the daemon at 1 ns resolution);
+    #    any callback start is early, whatever the schedule
+    strace = os.path.join(ctx.work, "storm.ndjson")
+    ctx.vh(["C34", "storm", "--ms", 1200 if quick else 5000, "--trace", strace], timeout=3000)
+    sseen, sevents, ssegs = validate(ctx, strace, "storm", {})
+    sums = [e for e in sevents if e["a"] == "Storm"]
+    for (a, b, e), su in zip(ssegs, sums):
+        ctx.case(["storm", e.get("loop"), e.get("shards"), su["started"] > 0], nontrivial=su["news"] > 0,
+                 sample={"storm": {k: e.get(k) for k in ("loop", "shards")}, "summary": su})
+    ctx.traces += len(ssegs)
+    ctx.extra["registration_storm"] = {"runs": len(sums), "new_calls": sum(x["news"] for x in sums),
+                                       "stop_calls": sum(x["stops"] for x in sums),
+                                       "iterate_passes": sum(x["passes"] for x in sums),
+                                       "callbacks_started": sum(x["started"] for x in sums)}
+    if reg_cex and not any("NotEarly" in v for v in sseen.values()):
+        mo.append({"invariant": reg_inv, "schedule": [(x["a"], x.get("x", x.get("id"))) for x in reg_cex],
+                   "note": "timer visible to the loop before its first deadline is written: not an order of this tree's NewTimer"})
+    ctx.extra["events_validated"] = len(events) + len(fevents) + len(sevents)
     ctx.assumptions = [
         "sentence 1 is judged per instance: 'stopped' = removed by a StopTimers/StopOthers/StopAllTimers/Stop call that has returned; "
         "an instance overwritten by New under the same id is not stopped by a later stop of that id (stronger reading not alarmed)",
         "callback start times are compared with registration / previous callback start (weaker reading of sentence 3)",
-        "forced schedules use 1 ns intervals and call iterate() through VerifIterate; the ticker loop itself runs in the free runs only",
+        "forced schedules use 1 ns intervals and call iterate() through VerifIterate; the ticker loop itself runs in the free runs and "
+        "in half of the registration storms",
+        "registration storm: a run lasts seconds and every interval is 10 minutes, so a callback start is early without comparing clocks",
     ]
